@@ -43,6 +43,14 @@ SPECS = [
               'recomputed from these by calculate_stokes_errors / calculate_mdp99 / calculate_n_eff / calculate_polarization (generated above)'),
     Spec('ixpeobssim.binning.misc', 'xBinnedLightCurve.__iadd__', 'lc_iadd', [], elementwise=True, guards=['_check_iadd'],
          note='one time bin of the sum of two light curves: (COUNTS, EXPOSURE, ERROR) after the update'),
+    Spec('ixpeobssim.binning.misc', 'xBinnedPulseProfile.__iadd__', 'pp_iadd', [], elementwise=True, guards=['_check_iadd'],
+         note='one phase bin of the sum of two pulse profiles: (COUNTS, ERROR) after the update'),
+    Spec('ixpeobssim.binning.polarization', 'xBinnedCountSpectrum.__iadd__', 'pha1_iadd', [], elementwise=True, guards=['_check_iadd'],
+         note='one channel of the sum of two count spectra: (RATE, STAT_ERR) after the update'),
+    Spec('ixpeobssim.binning.polarization', 'xBinnedMDPMapCube.__iadd__', 'mdpcube_iadd', [], elementwise=True, guards=['_check_iadd'],
+         method_calls={'_weighted_average': ('weighted_average', lambda a: ['self.%s' % a[1].strip("'"), 'self.%s' % a[2].strip("'"),
+                                                                          'other.%s' % a[1].strip("'"), 'other.%s' % a[2].strip("'"), 'false'])},
+         note='one pixel of one energy layer of the sum of two MDP map cubes: (E_MEAN, COUNTS, MU, W2, I, MDP_99, N_EFF, FRAC_W) after the update'),
     Spec('ixpeobssim.evt.align', 'align_stokes_parameters', 'align_stokes_parameters', ['q', 'u', 'q0', 'u0']),
     Spec('ixpeobssim.evt.spurmrot', 'delta_phi_ampl', 'delta_phi_ampl', ['phi', 'amplitude', 'phase', 'harmonic']),
     Spec('ixpeobssim.evt.spurmrot', 'delta_phi_stokes', 'delta_phi_stokes', ['phi', 'qspur', 'uspur']),
@@ -302,6 +310,8 @@ def main():
     for s in SPECS:
         if '.' not in s.qual:
             reg[s.qual] = s
+        elif s.lean == s.qual.split('.')[-1] and s.lean.startswith('calculate_'):
+            reg[s.lean] = s          # the static per-bin functions of xStokesAnalysis, called from the binned products
     tr = Translator(reg)
     status = {'functions': {}, 'tables': 'ok'}
     defs = []
